@@ -676,12 +676,16 @@ impl Ipv6Extensions {
 
         // check if hop by hop header should be written first
         if IPV6_HOP_BY_HOP == next_header {
-            let header = &self.hop_by_hop_options.as_ref().unwrap();
-            writer
-                .write_all(&header.to_bytes())
-                .map_err(WriteError::Io)?;
-            next_header = header.next_header;
-            needs_write.hop_by_hop_options = false;
+            // the ip number for hop by hop (0) can also be present without
+            // a hop by hop header (e.g. as a placeholder, see below &
+            // `next_header`), in that case there is nothing to write here
+            if let Some(ref header) = self.hop_by_hop_options {
+                writer
+                    .write_all(&header.to_bytes())
+                    .map_err(WriteError::Io)?;
+                next_header = header.next_header;
+                needs_write.hop_by_hop_options = false;
+            }
         }
 
         loop {
